@@ -168,6 +168,56 @@ class Eval:
     def ev_opt(self, t):
         return ('some', self.ev(t[2])) if self.truth(t[1]) else None
 
+    # a lookup in a literal table of the crate (`TABLE.iter().find(|row| row.0 == key)`, `.any(..)`): the rows are values, the element is bound row by row
+    def _rows(self, star):
+        src = self.ev(star[1])
+        if not isinstance(src, (tuple, list)) or (isinstance(src, tuple) and src and src[0] == 'some'):
+            raise Unbound(star)
+        return list(src)
+
+    def ev_elem(self, t):
+        b = getattr(self, '_elems', {})
+        if t[1] in b:
+            return b[t[1]]
+        raise Unbound(t)
+
+    def _selected(self, star):
+        if star[0] != 'star' or star[5]:
+            raise Unbound(star)
+        self.__dict__.setdefault('_elems', {})
+        for row in self._rows(star):
+            saved = self._elems.get(star[2], self)
+            self._elems[star[2]] = row
+            try:
+                if all(self.truth(c) for c in star[4]):
+                    yield row
+            finally:
+                if saved is self:
+                    self._elems.pop(star[2], None)
+                else:
+                    self._elems[star[2]] = saved
+
+    def ev_found(self, t):
+        star = t[1]
+        for row in self._selected(star):
+            self._elems[star[2]] = row
+            try:
+                return self.ev(star[3])
+            finally:
+                self._elems.pop(star[2], None)
+        raise Diverge('nothing found', 0)
+
+    def ev_any(self, t):
+        star, cond = t[1], t[2]
+        for row in self._selected(star):
+            self._elems[star[2]] = row
+            try:
+                if self.truth(cond):
+                    return True
+            finally:
+                self._elems.pop(star[2], None)
+        return False
+
     def ev_lit(self, t):
         if t[1] == 'int':
             return int(t[2])
